@@ -132,6 +132,18 @@ def startline():
 	o.append('def statusReasonCharTable : List Bool := [' + ', '.join('true' if Status.STATUS_RE.match(b'200 ' + bytes([b])) else 'false' for b in range(256)) + ']')
 	o.append('def protocolDigitTable : List Bool := [' + ', '.join('true' if Protocol.PROTOCOL_RE.match(b'HTTP/1.' + bytes([b])) else 'false' for b in range(256)) + ']')
 	o.append('def serverProtocol : Nat × Nat := (%d, %d)' % tuple(ServerProtocol))
+	# size limits the state machines carry by default (the model has none): every MAX_* attribute that is a finite number
+	from httoop.server import ServerStateMachine
+	from httoop.client import ClientStateMachine
+	limits = []
+	for cls, args in ((ServerStateMachine, ('http', 'localhost', 80)), (ClientStateMachine, ())):
+		sm = cls(*args)
+		for name in sorted(dir(sm)):
+			if name.startswith('MAX_'):
+				v = getattr(sm, name)
+				if isinstance(v, (int, float)) and v == v and v not in (float('inf'), float('-inf')):
+					limits.append('(%s, %d)' % (lbytes(('%s.%s' % (cls.__name__, name)).encode()), int(v)))
+	o.append('def stateMachineLimits : List (List UInt8 × Nat) := [' + ', '.join(limits) + ']')
 	return o
 
 
